@@ -1187,6 +1187,7 @@ def make_builtins(interp):
     OBJECT.ns["__construct__"] = lambda i, c, a, k: IObj(c)
     OBJECT.ns["__new__"] = IStaticMethod(INative("object.__new__", lambda cls, *a, **k: IObj(cls)))
     OBJECT.ns["__init__"] = INative("object.__init__", lambda self, *a, **k: None)
+    OBJECT.ns["__init__"].is_method = True
     return b
 
 
